@@ -15,30 +15,75 @@ INDEX_DROPPED = [
     "storage.rs: merge_regions / reserve_regions defaults (iterator adapters) — bounded tier",
 ]
 
+
+REGION_DROPPED = [
+    "Region::merge_regions / reserve_regions / heap_size / reborrow, ReserveItems::reserve_items (iterator adapters, FnMut history) — bounded tier",
+    "SliceRegion / OptionRegion / ColumnsRegion / tuple-region push forms (closures over &mut, zip/map, macro-generated) — bounded tier",
+    "iterators (ReadSliceIter, ReadColumnsIter, FlatStack::iter), Extend / FromIterator — bounded tier",
+    "IntoOwned bodies (to_owned / clone_into / iterator adapters) — bounded tier; modelled as external_body in the world",
+    "impl headers (trait bounds) are replaced by the contract-carrying bounds of the world (Dense, ByteRegion, BytePush, CollapseEq)",
+    "OwnedRegion's storage parameter is instantiated S := Vec<T> (rule D8)",
+]
+
+REGION_TRUSTED = COMMON_TRUSTED + [
+    "assumed contract of core::str::from_utf8_unchecked: requires valid_utf8(bytes), ensures encode_utf8(result) == bytes (its documented safety contract)",
+    "axiom: Clone::clone of an element returns an equal value (what 'element-for-element equal' presupposes)",
+    "CollapseEq law: the PartialEq<ReadItem> used by CollapseSequence is a function of the read item's abstract value and equal items have equal values",
+    "vstd's UTF-8 theory (encode_utf8 / valid_utf8 lemmas) and its spec of str::as_bytes / String::as_str",
+]
+
+FAILSTOP_TRUSTED = [
+    "D7 models (external_body): diverge() never returns; checked_index_ref / checked_index_vec return only for in-bounds positions (Rust's panic and bounds-check semantics)",
+]
+
+
+def _p(level, worlds, explanation, kani=(), scans=(), drivers=(), trusted=None, dropped=None, assumptions=()):
+    return dict(level=level, worlds=list(worlds), kani=list(kani), scans=list(scans), drivers=list(drivers),
+                trusted=list(trusted if trusted is not None else REGION_TRUSTED), dropped=list(dropped if dropped is not None else REGION_DROPPED),
+                explanation=explanation, assumptions=list(assumptions))
+
+
 PROPS = {
-    "C05": dict(
-        level="proof",
-        worlds=["index"],
-        kani=[],
-        trusted=COMMON_TRUSTED,
-        dropped=INDEX_DROPPED,
-        explanation="Stride/IndexList/IndexOptimized/Vec containers proved against abstract sequence views for all inputs, "
-                    "including overflow-freedom (identical behaviour in checked and wrapping builds).",
-    ),
-    "C19": dict(
-        level="proof",
-        worlds=["index"],
-        kani=[],
-        trusted=COMMON_TRUSTED,
-        dropped=INDEX_DROPPED,
-        explanation="Accounting invariants over the C05 contracts: which entries are absorbed by the stride, which cost 4 and which 8 bytes.",
-    ),
+    "C01": _p("proof", ["regions"],
+              "push/index contracts (rd(push(x)) == val(x)) proved per region and generically for wrappers; accessors of read items proved exact."),
+    "C02": _p("proof", ["regions", "index"],
+              "frame clause of every push contract (all previously issued indices keep their value) plus whole-view append postconditions of the index containers; lemma_frame_star lifts it to histories.",
+              dropped=REGION_DROPPED + INDEX_DROPPED),
+    "C03": _p("proof", ["regions", "regions+failstop", "index", "index+failstop"],
+              "FlatStack::{default,with_capacity,copy,get,len,is_empty,reserve,clear} proved against an abstract Seq view for every region R and index container S satisfying the trait contracts; get is fail-stop.",
+              trusted=REGION_TRUSTED + FAILSTOP_TRUSTED, dropped=REGION_DROPPED + INDEX_DROPPED),
+    "C04": _p("proof", ["regions"],
+              "the unsafe call's safety precondition valid_utf8 is discharged from StringRegion's `issued` predicate; every accepted push form establishes it; wrappers only hand the inner region indices it issued.",
+              scans=["string_write_paths_closed"]),
+    "C05": _p("proof", ["index"],
+              "Stride/IndexList/IndexOptimized/Vec containers proved against abstract sequence views for all inputs, including overflow-freedom (identical behaviour in checked and wrapping builds).",
+              trusted=COMMON_TRUSTED, dropped=INDEX_DROPPED),
+    "C08": _p("proof", ["regions", "index"],
+              "clear() and default() both establish `fresh` (content and bookkeeping equal to the initial ones; capacity is not part of the abstract state).",
+              dropped=REGION_DROPPED + INDEX_DROPPED),
+    "C10": _p("proof", ["regions", "index"],
+              "reserve / with_capacity of the index containers and of FlatStack leave the abstract view unchanged / empty.",
+              dropped=REGION_DROPPED + INDEX_DROPPED),
+    "C11": _p("proof", ["regions"],
+              "CollapseSequence::push collapses exactly when the last index is Some(l) and the item equals the item at l (then the inner region is untouched); clear/default forget the last index."),
+    "C12": _p("proof", ["regions"],
+              "ConsecutiveIndexPairs returns 0,1,2,... (r == number of items so far) and index(k) reads the k-th pair of adjacent offsets, for every dense inner region and offset container; ColumnsRegion::index returns exactly row k."),
+    "C13": _p("proof", ["regions", "regions+failstop", "index+failstop"],
+              "positional accessors proved in two readings of the same bodies: total (i < len: no panic, i-th element of this item) and fail-stop (returns only for i < len).",
+              trusted=REGION_TRUSTED + FAILSTOP_TRUSTED, dropped=REGION_DROPPED + INDEX_DROPPED),
+    "C19": _p("proof", ["index", "regions"],
+              "accounting clauses: an entry is absorbed by the stride exactly when the documented rule accepts it, otherwise one entry is spilled (4 bytes while values fit u32, 8 after); dense outward indices (C12) are always absorbed.",
+              dropped=REGION_DROPPED + INDEX_DROPPED),
+    "C20": _p("proof", ["regions"],
+              "every forwarding Push impl is proved against the same contract as the canonical form with an equal abstract value (same index, same stored bytes, same reads)."),
 }
 
 # obligation prefix -> native counterexample harness (vk crate)
 CEX = {
     "index.Stride::push#": "stride_push_contract",
     "index.Stride::index#": "stride_index_contract",
+    "slice.ReadSliceInner::get": "slice_get_oob",
+    "slice.ReadSlice::get": "slice_get_oob",
 }
 
 
